@@ -291,6 +291,9 @@ fn c07_suite<S: ShortGroupSignatureScheme>(em: &mut Emitter, base: &mut Rng, sui
             Out::Ok(p) if scn.verify(&p).is_ok() => p,
             _ => continue,
         };
+        // model: the verifier-side relations the simulator of the hiding theorems has to satisfy
+        recommit_lines(em, suite, &scn.schema, &p, &scn.nonce);
+        em.op(plan_line(&scn.schema, &p, suite), plan_class(&p, &scn.schema, &scn.nonce).0);
         let claim = &scn.bundles[0].credential.claims[ci];
         let m0 = claim.to_scalar();
         let m1 = other_value(claim, rng).to_scalar();
@@ -460,6 +463,10 @@ fn c12_suite<S: ShortGroupSignatureScheme>(em: &mut Emitter, base: &mut Rng, sui
             (Out::Ok(a), Out::Ok(b), Out::Ok(c)) => (a, b, c),
             _ => continue,
         };
+        // model: the verifier-side relations of both presentations of the same credential
+        recommit_lines(em, suite, &scn_a.schema, &pa1, &scn_a.nonce);
+        recommit_lines(em, suite, &scn_a.schema, &pa2, &nonce2);
+        em.op(plan_line(&scn_a.schema, &pa2, suite), plan_class(&pa2, &scn_a.schema, &nonce2).0);
         let (va1, va2, vb) = (view_of(&pa1), view_of(&pa2), view_of(&pb));
         let same = links(&va1, &va2);
         let diff = links(&va1, &vb);
